@@ -1365,42 +1365,16 @@ Proof. intros Hp Hc. apply build_is_any_topo_order; [exact Hp | apply closed_top
 
 End BuildOrder.
 
-(* ================================================================== a decidable guard for [keys_apart] *)
-(* no printed label is a prefix of another one: with an injective digest that never prints '_' (hex
-   digests) the keys of different targets differ whatever their dependencies hash to *)
-Definition labels_prefix_free (s : sources) : Prop :=
-  forall i j ti tj, i <> j -> node_at s i = Some (NTarget ti) -> node_at s j = Some (NTarget tj) ->
-    has_prefix (print_label (td_label ti)) (print_label (td_label tj)) = false.
-
-Lemma app_eq_prefix : forall (a a' r r' : str),
-  a ++ r = a' ++ r' -> has_prefix a a' = true \/ has_prefix a' a = true.
-Proof.
-  induction a as [|x a IH]; intros [|y a'] r r' E; cbn [has_prefix]; auto.
-  cbn [app] in E. inversion E; subst. rewrite Ascii.eqb_refl. cbn [andb]. eapply IH; eauto.
-Qed.
-
-Lemma keys_apart_prefix_free H s :
+(* ================================================================== [keys_apart] from [labels_distinct] *)
+(* the key encoding is framed (C09_injective): with an injective digest that never prints '_' (hex digests)
+   the keys of targets with different labels differ, whatever their dependencies hash to *)
+Lemma keys_apart_labels_distinct H s :
   (forall x y, H x = H y -> x = y) -> (forall x, ~ In ch_us (H x)) ->
-  labels_prefix_free s -> keys_apart H s.
+  labels_distinct s -> keys_apart H s.
 Proof.
-  intros H_inj H_hex Hpf i j ti tj dh dh' Hne Hi Hj E. unfold pt_key in E.
-  apply (key_streams H H_inj H_hex) in E as [E _].
-  unfold encode_def, comps in E. cbn [concat state_of ts_label] in E.
-  apply app_eq_prefix in E as [E|E].
-  - rewrite (Hpf i j ti tj Hne Hi Hj) in E. discriminate.
-  - rewrite (Hpf j i tj ti (not_eq_sym Hne) Hj Hi) in E. discriminate.
-Qed.
-
-Lemma labels_distinct_prefix_free s : labels_prefix_free s -> labels_distinct s.
-Proof.
-  intros Hpf i j ti tj Hne Hi Hj E. pose proof (Hpf i j ti tj Hne Hi Hj) as Hp. rewrite E in Hp.
-  rewrite <- (app_nil_r (print_label (td_label tj))) in Hp at 2. rewrite has_prefix_app in Hp. discriminate.
-Qed.
-
-Lemma app_inj_len {A} : forall (a a' r r' : list A), length a = length a' -> a ++ r = a' ++ r' -> a = a'.
-Proof.
-  induction a as [|x a IH]; intros [|y a'] r r' Hl E; cbn in *; try discriminate; [reflexivity|].
-  inversion E; subst. f_equal. eapply IH; eauto.
+  intros H_inj H_hex Hld i j ti tj dh dh' Hne Hi Hj E. unfold pt_key in E.
+  apply (key_label H H_inj H_hex) in E. cbn [state_of ts_label] in E.
+  exact (Hld i j ti tj Hne Hi Hj E).
 Qed.
 
 (* ================================================================== (5) the diamond: a; b, c depend on a; d depends on b and c *)
@@ -1426,30 +1400,36 @@ Proof. exact (fun E => E). Qed.
 Lemma d_node i n : node_at d_s i = Some n -> i < 4.
 Proof. intro E. apply Build_c15_proofs.node_at_lt in E. exact E. Qed.
 
-Lemma d_key_prefix t dh : td_ins t = [] ->
-  exists r, pt_key dH d_s t dh = (print_label (td_label t) ++ r)%list.
+(* the identity digest: for a target without inputs the key IS the framed definition stream *)
+Lemma id_key_label s ti tj dh dh' : td_ins ti = [] -> td_ins tj = [] ->
+  pt_key dH s ti dh = pt_key dH s tj dh' -> td_label ti = td_label tj.
 Proof.
-  intro Hi. unfold pt_key, change_key, no_inputs, state_of, dH. cbn [ts_ins]. rewrite Hi.
-  unfold encode_def, comps. cbn [concat ts_label]. eexists. reflexivity.
+  intros Ii Ij. unfold pt_key, change_key, no_inputs, state_of, dH. cbn [ts_ins]. rewrite Ii, Ij.
+  intro E. apply encode_def_inj in E as [E _]. exact E.
+Qed.
+
+Lemma d_labels_distinct : labels_distinct d_s.
+Proof.
+  intros i j ti tj Hne Hi Hj E.
+  pose proof (d_node i _ Hi). pose proof (d_node j _ Hj).
+  destruct i as [|[|[|[|i]]]]; try lia; destruct j as [|[|[|[|j]]]]; try lia; try (exfalso; apply Hne; reflexivity);
+    inversion Hi; inversion Hj; subst; discriminate E.
+Qed.
+
+Lemma d_no_ins i t : node_at d_s i = Some (NTarget t) -> td_ins t = [].
+Proof.
+  intro Hi. pose proof (d_node i _ Hi).
+  destruct i as [|[|[|[|i]]]]; try lia; inversion Hi; reflexivity.
 Qed.
 
 Lemma d_guards : guards dH d_s.
 Proof.
   constructor.
   - unfold no_overwrite. vm_compute. repeat constructor; simpl; intuition discriminate.
-  - intros i j ti tj Hne Hi Hj E.
-    pose proof (d_node i _ Hi). pose proof (d_node j _ Hj).
-    destruct i as [|[|[|[|i]]]]; try lia; destruct j as [|[|[|[|j]]]]; try lia; try (exfalso; apply Hne; reflexivity);
-      inversion Hi; inversion Hj; subst; discriminate E.
+  - exact d_labels_distinct.
   - intros i j ti tj dh dh' Hne Hi Hj E.
-    pose proof (d_node i _ Hi). pose proof (d_node j _ Hj).
-    destruct (d_key_prefix ti dh) as [r Hr].
-    { destruct i as [|[|[|[|i]]]]; try lia; inversion Hi; reflexivity. }
-    destruct (d_key_prefix tj dh') as [r' Hr'].
-    { destruct j as [|[|[|[|j]]]]; try lia; inversion Hj; reflexivity. }
-    rewrite Hr, Hr' in E.
-    destruct i as [|[|[|[|i]]]]; try lia; destruct j as [|[|[|[|j]]]]; try lia; try (exfalso; apply Hne; reflexivity);
-      inversion Hi; inversion Hj; subst; apply app_inj_len in E; try reflexivity; discriminate E.
+    apply (d_labels_distinct i j ti tj Hne Hi Hj).
+    exact (id_key_label d_s ti tj dh dh' (d_no_ins i ti Hi) (d_no_ins j tj Hj) E).
   - intros i t Hi. pose proof (d_node i _ Hi).
     destruct i as [|[|[|[|i]]]]; try lia; inversion Hi; reflexivity.
 Qed.
@@ -1518,13 +1498,6 @@ Proof.
 Qed.
 
 (* ================================================================== why the guards are there: refutations *)
-Lemma id_key_prefix s t dh : td_ins t = [] ->
-  exists r, pt_key dH s t dh = (print_label (td_label t) ++ r)%list.
-Proof.
-  intro Hi. unfold pt_key, change_key, no_inputs, state_of, dH. cbn [ts_ins]. rewrite Hi.
-  unfold encode_def, comps. cbn [concat ts_label]. eexists. reflexivity.
-Qed.
-
 (* guards of a snapshot made of two plain targets p:x, p:y and possibly an alias *)
 Definition r_t (n cmd out : String.string) (deps : list nat) (beh : behaviour) : tdef :=
   mkTD (dL n) (lit cmd) (lit "v") [] [mkOut OFile (lit out)] deps [] false false beh false.
@@ -1533,11 +1506,10 @@ Lemma two_target_guards3 s i j ti tj :
   i <> j -> node_at s i = Some (NTarget ti) -> node_at s j = Some (NTarget tj) ->
   (forall k t, node_at s k = Some (NTarget t) -> k = i \/ k = j) ->
   td_ins ti = [] -> td_ins tj = [] ->
-  length (print_label (td_label ti)) = length (print_label (td_label tj)) ->
-  print_label (td_label ti) <> print_label (td_label tj) ->
+  td_label ti <> td_label tj ->
   labels_distinct s /\ keys_apart dH s.
 Proof.
-  intros Hne Hi Hj Honly Ii Ij Hlen Hlab.
+  intros Hne Hi Hj Honly Ii Ij Hlab.
   assert (Hcase : forall a b ta tb, a <> b -> node_at s a = Some (NTarget ta) -> node_at s b = Some (NTarget tb) ->
             (ta = ti /\ tb = tj) \/ (ta = tj /\ tb = ti)).
   { intros a b ta tb Hab Ha Hb.
@@ -1547,8 +1519,7 @@ Proof.
   - intros a b ta tb Hab Ha Hb E. destruct (Hcase a b ta tb Hab Ha Hb) as [[-> ->]|[-> ->]]; congruence.
   - intros a b ta tb dh dh' Hab Ha Hb E.
     assert (Hk : forall dh1 dh2, pt_key dH s ti dh1 <> pt_key dH s tj dh2).
-    { intros dh1 dh2 E'. destruct (id_key_prefix s ti dh1 Ii) as [r Hr]. destruct (id_key_prefix s tj dh2 Ij) as [r' Hr'].
-      rewrite Hr, Hr' in E'. apply app_inj_len in E'; [contradiction | exact Hlen]. }
+    { intros dh1 dh2 E'. exact (Hlab (id_key_label s ti tj dh1 dh2 Ii Ij E')). }
     destruct (Hcase a b ta tb Hab Ha Hb) as [[-> ->]|[-> ->]]; [apply (Hk dh dh' E) | apply (Hk dh' dh); auto].
 Qed.
 
@@ -1557,12 +1528,11 @@ Lemma two_target_guards s i j ti tj :
   (forall k t, node_at s k = Some (NTarget t) -> k = i \/ k = j) ->
   NoDup (all_out_paths s) ->
   td_ins ti = [] -> td_ins tj = [] -> outs_need_cmd ti = true -> outs_need_cmd tj = true ->
-  length (print_label (td_label ti)) = length (print_label (td_label tj)) ->
-  print_label (td_label ti) <> print_label (td_label tj) ->
+  td_label ti <> td_label tj ->
   guards dH s.
 Proof.
-  intros Hne Hi Hj Honly Hno Ii Ij Ci Cj Hlen Hlab.
-  destruct (two_target_guards3 s i j ti tj Hne Hi Hj Honly Ii Ij Hlen Hlab) as [G2 G3].
+  intros Hne Hi Hj Honly Hno Ii Ij Ci Cj Hlab.
+  destruct (two_target_guards3 s i j ti tj Hne Hi Hj Honly Ii Ij Hlab) as [G2 G3].
   constructor; [exact Hno | exact G2 | exact G3 |].
   intros a ta Ha. destruct (Honly a ta Ha) as [-> | ->]; [rewrite Hi in Ha | rewrite Hj in Ha]; inversion Ha; subst; assumption.
 Qed.
@@ -1696,26 +1666,12 @@ Proof.
   apply (step_congr dH dH_inj d_cfg d_s d_sel eq_refl eq_refl). exact d_swap_nonvacuous.
 Qed.
 
-(* the decidable guard, with the hex digest of HashKey_proofs.v: the diamond satisfies all guards *)
-Lemma d_prefix_free : labels_prefix_free d_s.
-Proof.
-  intros i j ti tj Hne Hi Hj. pose proof (d_node i _ Hi). pose proof (d_node j _ Hj).
-  destruct i as [|[|[|[|i]]]]; try lia; destruct j as [|[|[|[|j]]]]; try lia; try (exfalso; apply Hne; reflexivity);
-    inversion Hi; inversion Hj; subst; reflexivity.
-Qed.
-
+(* with the hex digest of HashKey_proofs.v the key guard follows from the labels: the diamond satisfies all guards *)
 Example d_guards_hex : guards hex_enc d_s.
 Proof.
   constructor.
   - exact (g_no _ _ d_guards).
-  - exact (labels_distinct_prefix_free d_s d_prefix_free).
-  - exact (keys_apart_prefix_free hex_enc d_s hex_enc_inj hex_enc_no_us d_prefix_free).
+  - exact d_labels_distinct.
+  - exact (keys_apart_labels_distinct hex_enc d_s hex_enc_inj hex_enc_no_us d_labels_distinct).
   - exact (g_cmd _ _ d_guards).
-Qed.
-
-Lemma guards_prefix_free (H : str -> str) s :
-  (forall x y, H x = H y -> x = y) -> (forall x, ~ In ch_us (H x)) ->
-  labels_prefix_free s -> keys_apart H s /\ labels_distinct s.
-Proof.
-  intros Hi Hh Hp. split; [exact (keys_apart_prefix_free H s Hi Hh Hp) | exact (labels_distinct_prefix_free s Hp)].
 Qed.
